@@ -242,6 +242,8 @@ pub struct FileScan {
     pub sites: Vec<Site>,
     /// for every function (qualified name): its token text, for the `sorted` justification
     pub bodies: BTreeMap<String, String>,
+    /// for every function: its signature (`fn name ( … ) -> …`) as token text
+    pub sigs: BTreeMap<String, String>,
     /// the whole file as token text (test items included)
     pub text: String,
 }
@@ -834,6 +836,8 @@ pub fn scan_file(rel: &str, src: &str, g: &Globals) -> FileScan {
                         let q = cur_fn(&stack).unwrap_or_default();
                         let end = close_of(j);
                         let body: Vec<&str> = t[j..end.min(t.len())].iter().map(|x| x.s.as_str()).collect();
+                        let sig: Vec<&str> = t[i..j.min(t.len())].iter().map(|x| x.s.as_str()).collect();
+                        fs.sigs.insert(q.clone(), sig.join(" "));
                         fs.bodies.insert(q, body.join(" "));
                     }
                     i = j + 1;
@@ -1307,6 +1311,7 @@ fn entry_points(tree: &Tree, out: &mut Out) -> serde_json::Value {
     let mut n_driven = 0usize;
     let mut n_listed = 0usize;
     let mut ro_undriven: Vec<String> = Vec::new();
+    let mut unrelated_free: Vec<String> = Vec::new();
     for (file, fs) in &tree.files {
         let tier = tier_of(file);
         // (a) harness-like public types anywhere outside src/bin and tests
@@ -1371,8 +1376,20 @@ fn entry_points(tree: &Tree, out: &mut Out) -> serde_json::Value {
             if !relevant {
                 continue;
             }
-            n_fns += 1;
             let key = if f.owner == "-" { f.name.clone() } else { format!("{}::{}", f.owner, f.name) };
+            if f.owner == "-" && !(f.name.starts_with("run_") || f.name.starts_with("summarize_") || f.name.starts_with("check_")) {
+                // a free function of a simulation file is an ENTRY POINT only if it can run or judge a simulation: its
+                // signature or body mentions a harness-like type, a DST configuration / result, or a seeded generator.
+                // An unrelated helper (`pub fn millis_per_second() -> u64`) is not; if its body holds a nondeterminism
+                // site the site scan names it.
+                let text = format!("{} {}", fs.sigs.get(&key).cloned().unwrap_or_default(), fs.bodies.get(&key).cloned().unwrap_or_default());
+                let about_simulation = text.split(' ').any(|w| is_ident(w) && (harness_like(w) || w.ends_with("DSTConfig") || w.ends_with("DSTResult") || w == "Rng" || w == "TimestampedOperation" || w == "VirtualTime" || w == "FaultConfig"));
+                if !about_simulation && !fs.sites.iter().any(|x| x.func == key) {
+                    unrelated_free.push(format!("{} ({}:{})", key, file, f.line));
+                    continue;
+                }
+            }
+            n_fns += 1;
             let driven = if f.owner == "-" {
                 // called, or handed to a macro / passed as a function value
                 word_in(&drv, &format!("{}(", f.name)) || word_in(&drv, &format!("{},", f.name)) || word_in(&drv, &format!("{})", f.name))
@@ -1427,7 +1444,8 @@ fn entry_points(tree: &Tree, out: &mut Out) -> serde_json::Value {
     }
     json!({"harness_table(type → level M modelled / E explored / K kernel op-by-op / N not driven)": rows, "entry_points_and_config_fields": n_fns, "driven": n_driven,
            "listed_not_driven": n_listed, "stale_table_rows": stale,
-           "readonly_accessors_not_driven(a new `&self` fn without a nondeterminism site: an observation nobody compares yet, not a violation)": ro_undriven})
+           "readonly_accessors_not_driven(a new `&self` fn without a nondeterminism site: an observation nobody compares yet, not a violation)": ro_undriven,
+           "free_functions_not_about_a_simulation(no harness-like type, DST configuration / result or generator in signature or body)": unrelated_free})
 }
 
 // ------------------------------------------------------------------------------------------
